@@ -341,6 +341,8 @@ func init() {
 			{name: "long-service", n: tierN(3000, 60000), unit: 1500, run: c07Long, service: true,
 				note: "the same generator and oracle as the stream named in front of the dash, but every request goes through decideHandler of main.go in-process (gin binding, the handler's own request object) after a history of 1..3 unrelated requests (accepted and rejected)"},
 			{name: "long", n: tierN(14000, 300000), unit: 3500, run: c07Long, floors: map[string]int64{"bias_events": 60000}},
+			{name: "emptyLevels", n: tierN(3400, 60000), unit: 1700, run: c07EmptyLevels, floors: map[string]int64{"empty_levels_requests": 3000},
+				note: "satisfaction / aspect elimination with function thresholds and no level at all (empty list, empty params, params left out) x every bias sequence of length 1..2"},
 		},
 	})
 	register(&propDef{
@@ -410,6 +412,8 @@ func init() {
 			{name: "mixing", n: tierN(21000, 400000), unit: 3500, run: biasDriver("C18", "criteriaMixing", oneToThree, nil),
 				floors: map[string]int64{"mixing_events": 9000, "mixing_noop_events": 500, "mixing_with_cost": 1000}},
 			{name: "frequency", n: tierN(4, 24), unit: 1, run: c18Frequency, floors: map[string]int64{"frequency_batteries": 4}},
+			{name: "negativeWeights", n: tierN(7000, 120000), unit: 3500, run: c18NegDriver, floors: map[string]int64{"negative_weights": 2500},
+				note: "the concealment / mixing drivers with weights of either sign for weighted sum, majority and aspect elimination: the added weight is a fraction in [0,1) of a negative reference weight too"},
 		},
 	})
 	register(&propDef{
